@@ -453,6 +453,18 @@ Theorem C02_unnamed_group_except :
   (dd_is_generated_index_name D from c = false \/ similar_unnamed_index D to c = None).
 Proof. exact from_step_drop. Qed.
 
+(** 5d. ... and when no two current indexes share a partner ([positions]: the partner positions of
+    the current indexes, in order, without repetition) and partners are positions of the desired
+    list, the pairs are counted once on each side: as many desired indexes are exempt from
+    AddIndex by a partner as current indexes are exempt from DropIndex by one.  (The witness of
+    5b violates exactly the NoDup hypothesis: positions = [0; 0].) *)
+Theorem C02_unnamed_pairing_count :
+  forall (D : DiffDriver) from to,
+  NoDup (positions D from to (t_idx from)) ->
+  (forall k, In k (positions D from to (t_idx from)) -> k < length (t_idx to)) ->
+  length (filter (claimed D from to) (seq 0 (length (t_idx to)))) = length (filter (has_partner D from to) (t_idx from)).
+Proof. exact pairing_count. Qed.
+
 (** 5c. "functional_index_2, functional_index_3, ... are names generated by MySQL" is not what
     IsGeneratedIndexName says: only functional_index itself is recognised (strings.TrimLeft with
     the name's own characters as cutset leaves ""), so such an index is dropped and re-added
@@ -682,6 +694,10 @@ Example C02_ex_unnamed_steps :
   add_step mysql_driver w_grp_from w_grp_to2 0 (t_idx w_grp_to2) = [AddIndex []] /\
   claimed mysql_driver w_grp_from w_grp_to2 0 = true /\ claimed mysql_driver w_grp_from w_grp_to2 1 = false.
 Proof. repeat split; vm_compute; reflexivity. Qed.
+Example C02_ex_pairing_positions :
+  positions mysql_driver w_grp_from w_grp_to2 (t_idx w_grp_from) = [0; 0] /\
+  positions mysql_driver w_grp_from (mkTable [116]%N false false [w_grp_col] None [w_uq []] [] []) [w_uq s_age] = [0].
+Proof. split; vm_compute; reflexivity. Qed.
 Example C02_ex_no_check : mysql_table_attr_diff_v x_v57 x_t x_t = None.
 Proof. vm_compute. reflexivity. Qed.
 
@@ -729,3 +745,4 @@ Print Assumptions C02_mysql_variant_default.
 Print Assumptions C02_mysql_variant_no_check.
 Print Assumptions C02_mysql_fill_idempotent_except.
 Print Assumptions C02_mysql_fill_other_server_refuted.
+Print Assumptions C02_unnamed_pairing_count.
